@@ -1285,6 +1285,37 @@ func c10R4(c *Check, sr *storeRoles) {
 			c.Obl(okCaller, "C10.R4", "ctor-only-in-prerun/"+ctor.Name()+"/"+fnKey(caller), P.Pos(site.Pos()), ctor.Name()+" is called in the factory's PreRun (after the configuration was loaded)",
 				ctor.Name()+" is called from "+fnKey(caller)+", which can run before the configuration is loaded: the store would be built with the timeouts of an empty configuration")
 		}
+		// the shared in-memory store is built with the timeouts of a filter that uses it: its constructor call is reached
+		// only under the fact that the current filter has no Redis server configured (a store built from the first OIDC
+		// filter, whatever its backend, gets the timeouts of a filter that never touches it)
+		if ctor == sr.NewMem {
+			for _, site := range sites {
+				okBackend := false
+				for cond, pol := range FactsOf(site.Parent()).At(site) {
+					bo, isB := cond.(*ssa.BinOp)
+					if !isB || (bo.Op != token.EQL && bo.Op != token.NEQ) {
+						continue
+					}
+					empty := false
+					if sv, isC := constString(bo.Y); isC && sv == "" {
+						empty = true
+					}
+					if isNilConst(bo.Y) {
+						empty = true
+					}
+					if !empty || (bo.Op == token.EQL) != pol {
+						continue
+					}
+					for _, l := range Leaves(bo.X, leafOpts{noConcat: true}) {
+						if dc, _, isC := asCall(resolveCell(stripConv(l))); isC && (isCallTo(dc, idOIDCConfig+".GetRedisSessionStoreConfig") || strings.HasSuffix(funcID(calleeOf(dc).Obj), "RedisConfig.GetServerUri")) {
+							okBackend = true
+						}
+					}
+				}
+				c.Obl(okBackend, "C10.R4", "memory-store-for-a-memory-filter/"+nthCallKey(site), P.Pos(site.Pos()), "the in-memory store is built under `this filter has no Redis server`",
+					"the in-memory store is built without the fact that the current filter uses it (no Redis server configured): it can get the timeouts of a Redis-backed filter")
+			}
+		}
 		for _, site := range sites {
 			for i, p := range ctor.Params {
 				role := roleOfParam(p.Name())
